@@ -215,7 +215,7 @@ impl Check for C03 {
         "exploration"
     }
     fn rule(&self) -> String {
-        "one run = N in 2..4 real `copia serve` processes on one root, each driven by a client actor with 2..5 requests over {Put, Delete, Get, List} on 1..3 shared and private paths (expected = None / initial hash / last hash this client learned / stale), unique Put bodies 24 B..600 KiB sent in seeded pieces; the seeded scheduler (uniform, sticky, PCT d<=3, sequential) interleaves every file-system, flock and pipe step of all processes. The recorded invoke/response history (stamped with the kernel's global step number) is searched for a linearization (Wing-Gong-Lowe) against a sequential CAS map whose final state must equal the final hub tree. Non-trivial = two Puts on one path overlapped in time; distinct = hash of the interleaved op trace".into()
+        "one run = N in 2..4 real `copia serve` processes on one root, each driven by a client actor with 2..5 requests over {Put, Delete, Get, List} on 1..3 shared and private paths (expected = None / initial hash / last hash this client learned / stale), unique Put bodies 24 B..600 KiB sent in seeded pieces; the seeded scheduler (uniform, sticky, PCT d<=3, sequential) interleaves every file-system, flock and pipe step of all processes. The recorded invoke/response history (stamped with the kernel's global step number) is searched for a linearization (Wing-Gong-Lowe) against a sequential CAS map whose final state must equal the final hub tree. Fault batch (a quarter of the runs): one server is killed before a seeded file-system call, or one of its write/rename/open/mkdir/unlink/fsync/read calls fails with EIO/ENOSPC/EACCES; a request that server left unanswered may take effect at any point after it was sent or never, a request it answered with Error must have changed nothing, its listing may omit (never misreport) files, every other reply and the final tree are judged exactly as before. Non-trivial = two Puts on one path overlapped in time or a fault fired; distinct = hash of the interleaved op trace".into()
     }
     fn assumptions(&self) -> Vec<String> {
         vec![
@@ -225,7 +225,7 @@ impl Check for C03 {
         ]
     }
     fn components(&self) -> Value {
-        json!({"real": ["copia serve (serve.rs, wire.rs, meta.rs) x N processes", "wire.rs codec in the clients"], "simulated": ["file system", "flock", "pipes", "process scheduling", "client actors"]})
+        json!({"real": ["copia serve (serve.rs, wire.rs, meta.rs) x N processes", "wire.rs codec in the clients"], "simulated": ["file system", "flock", "pipes", "process scheduling", "client actors", "server kill before the k-th file-system call", "injected errno on one server file-system call"]})
     }
     fn runs(&self, tier: Tier) -> u64 {
         match tier {
@@ -238,7 +238,7 @@ impl Check for C03 {
         let n = r.urange(2, 4);
         let (init, clients) = gen_clients(&mut r, n, false, 5);
         let pipe_cap = pick_pipe_cap(&mut r, &clients);
-        HubSc {
+        let mut sc = HubSc {
             seed: r.next_u64(),
             init,
             clients,
@@ -247,7 +247,24 @@ impl Check for C03 {
             short_read_pct: *r.pick(&[0u32, 10, 50]),
             kill: None,
             sentinels: false,
+            io_fault: None,
+        };
+        // fault batch (a quarter of the runs): one server is killed before a seeded file-system
+        // call, or one of its file-system calls fails
+        if r.below(4) == 0 {
+            let srv = r.below(n as u64) as u32;
+            if r.coin() {
+                sc.kill = Some((srv, 1 + r.below(60) as u32, r.below(2) as u8));
+            } else {
+                let k = r.below(HUB_FAULT_KINDS.len() as u64) as u8;
+                let nth = match HUB_FAULT_KINDS[k as usize] {
+                    OpKind::Write | OpKind::Read | OpKind::Open => 1 + r.below(12) as u32,
+                    _ => 1 + r.below(4) as u32,
+                };
+                sc.io_fault = Some((srv, nth, k));
+            }
         }
+        sc
     }
     fn execute(&self, sc: &HubSc) -> RunReport {
         let mut rep = RunReport::default();
@@ -257,6 +274,7 @@ impl Check for C03 {
         rep.shape = run.out.shape;
         hub_probes(&mut rep, &run);
         rep.nontrivial = rep.probes.contains_key("overlapping_puts_same_path");
+        let _ = &sc.io_fault;
         if run.out.budget_exceeded {
             rep.harness_error = Some("op budget exceeded (scenario too large, not a verdict)".into());
             return rep;
@@ -267,16 +285,33 @@ impl Check for C03 {
             rep.fail("c03.progress", "hub-deadlock", format!("no process can make progress; procs={procs:?}\n    {}", tail.join("\n    ")));
             return rep;
         }
+        // the server a fault really hit (a kill point or call number beyond what the server does
+        // never fires: such a run is judged like a fault-free one)
+        rep.fault("server_kill", run.out.stats.kills);
+        rep.fault("injected_io_error", run.out.stats.injected_errors);
+        let faulted: Option<usize> = if run.out.stats.kills > 0 {
+            sc.kill.map(|(s, _, _)| s as usize)
+        } else if run.out.stats.injected_errors > 0 {
+            sc.io_fault.map(|(s, _, _)| s as usize)
+        } else {
+            None
+        };
+        if faulted.is_some() {
+            rep.nontrivial = true;
+        }
         for p in &run.out.procs {
-            if p.role.starts_with("serve") && p.exit != ExitKind::Code(0) {
+            if p.role.starts_with("serve") && p.exit != ExitKind::Code(0) && faulted.map_or(true, |f| p.role != format!("serve{f}")) {
                 rep.fail("c03.server_exit", "server-failed-on-valid-session", format!("{} exit={:?} stderr={}", p.role, p.exit, p.err_str()));
                 return rep;
             }
         }
         let ops = all_ops(&run.logs);
-        if ops.iter().any(|o| o.resp.is_none()) {
+        if ops.iter().any(|o| o.resp.is_none() && Some(o.client) != faulted) {
             rep.fail("c03.replies", "request-without-reply", ops.iter().filter(|o| o.resp.is_none()).map(|o| describe(o)).collect::<Vec<_>>().join("; "));
             return rep;
+        }
+        if ops.iter().any(|o| o.resp.is_none()) {
+            rep.probe("request_left_unanswered_by_faulted_server", 1);
         }
         if ops.len() > 24 {
             rep.probe("history_too_long_skipped", 1);
@@ -285,6 +320,7 @@ impl Check for C03 {
         let final_tree = visible_tree(&run.out.world);
         let init: Model = run.init.clone();
         let mut w = Wgl::new(ops.clone(), &final_tree, Relax::Nothing);
+        w.faulted_client = faulted;
         match w.search(&init) {
             Some(true) => {
                 rep.probe("linearized", 1);
@@ -292,10 +328,19 @@ impl Check for C03 {
             None => rep.probe("wgl_cap_skipped", 1),
             Some(false) => {
                 // classify: which relaxation makes it linearizable?
-                let class = if Wgl::new(ops.clone(), &final_tree, Relax::ListReplies).search(&init) == Some(true) {
+                let relaxed = |rx: Relax| {
+                    let mut w = Wgl::new(ops.clone(), &final_tree, rx);
+                    w.faulted_client = faulted;
+                    w.search(&init) == Some(true)
+                };
+                let class = if relaxed(Relax::ListReplies) {
                     "list-snapshot-not-atomic"
-                } else if Wgl::new(ops.clone(), &final_tree, Relax::GetReplies).search(&init) == Some(true) {
+                } else if relaxed(Relax::GetReplies) {
                     "get-reply-not-atomic"
+                } else if run.out.stats.injected_errors > 0 {
+                    "not-linearizable-after-server-io-error"
+                } else if run.out.stats.kills > 0 {
+                    "not-linearizable-after-server-kill"
                 } else {
                     "cas-history-not-linearizable"
                 };
@@ -311,6 +356,6 @@ impl Check for C03 {
         shrink_hub(sc)
     }
     fn expected_probes(&self) -> Vec<&'static str> {
-        vec!["overlapping_puts_same_path", "stale_cas_conflict_copy", "put_committed", "delete_committed", "linearized"]
+        vec!["overlapping_puts_same_path", "stale_cas_conflict_copy", "put_committed", "delete_committed", "linearized", "request_left_unanswered_by_faulted_server"]
     }
 }
